@@ -497,6 +497,48 @@ fn run(ctx: &RunCtx) -> Report {
     } else if !all_done {
         report.violate("hang", "lookup-did-not-finish", "a lookup did not finish within 180 s of virtual time in a loss-free network".into());
     }
+    // 1 run in 60 (own random stream): a *veteran tail* - the reader goes on to look up 1030..1100 targets nobody
+    // holds anything for (rolling its cache of the last 1000 lookups, whose oldest entries are the successful
+    // reads above) and then asks the most recent 150 of them again, newest first. Nothing authentic exists for
+    // those targets: whatever surfaces is somebody else's data.
+    let mut vrng = Rng::new(crate::rng::key(ctx.seed, &[crate::rng::tag("c02-veteran-tail")]));
+    if report.violation.is_none() && vrng.chance(1, 60) {
+        let n = vrng.usize(1030, 1100);
+        let mut asked: Vec<(bool, [u8; 20], [u8; 32])> = vec![];
+        let issue_empty = |sim: &Sim, e: &(bool, [u8; 20], [u8; 32])| if e.0 { sim.get_immutable(reader, e.1) } else { sim.get_mutable(reader, e.2, None, None) };
+        let mut batch: Vec<OpId> = vec![];
+        for i in 0..n {
+            let e = (i % 2 == 0, vrng.id(), {
+                let b: [u8; 32] = vrng.bytes(32).try_into().unwrap();
+                krpc::signing_key(b).verifying_key().to_bytes()
+            });
+            batch.push(issue_empty(&sim, &e));
+            asked.push(e);
+            if batch.len() == 25 || i + 1 == n {
+                sim.run_ops(&batch, sim.now() + 120 * SEC);
+                batch.clear();
+            }
+        }
+        for e in asked.iter().rev().take(150) {
+            let op = issue_empty(&sim, e);
+            sim.run_ops(&[op], sim.now() + 120 * SEC);
+            match sim.take_outcome(op) {
+                Some(Outcome::Immutable(Some(v))) if krpc::immutable_target(&v) != e.1 => {
+                    report.violate("forged-immutable", "immutable-wrong-hash", format!("after {n} further lookups get_immutable({}) - a target nobody holds anything for - returned {} bytes whose BEP44 hash is {}", hex8(&e.1), v.len(), hex8(&krpc::immutable_target(&v))));
+                    break;
+                }
+                Some(Outcome::Mutable(items)) => {
+                    if let Some((_, it)) = items.iter().find(|(_, it)| it.key() != &e.2 || !krpc::verify(&e.2, &krpc::mutable_signable(it.seq(), it.value(), None), it.signature())) {
+                        report.violate("forged-mutable", "mutable-item-of-another-key", format!("after {n} further lookups get_mutable of a key nobody wrote yielded an item of key {} (seq {})", krpc::hex(it.key()), it.seq()));
+                        break;
+                    }
+                }
+                _ => {}
+            }
+        }
+        report.probe("veteran_tail_runs", 1);
+        report.probe("veteran_tail_lookups", n as u64 + 150);
+    }
     // how many forged replies were actually delivered to the reader
     let forged_delivered = rawnet.shared.borrow().peers.iter().enumerate().filter(|(i, p)| active.iter().any(|f| f.0 == *i) && !p.requests.is_empty()).count();
     report.nontrivial = forged_delivered > 0;
